@@ -264,6 +264,15 @@ class QGen:
                 return f"{fs}.First().{r.choice(DOUBLE_METHODS)}()", "double"
             return f"{fs}.Select(lambda {v}: {v}.{r.choice(DOUBLE_METHODS)}()).{agg}()", "double"
         if self.b == "atlas" and k < 0.07:
+            if r.random() < 0.4:
+                # a singleton container declared through metadata (a value, not a sequence)
+                self.md[("coll", "MyEventInfo")] = {"metadata_type": "add_atlas_event_collection_info", "name": "MyEventInfo",
+                                                    "include_files": ["xAODEventInfo/EventInfo.h"], "container_type": "xAOD::EventInfo",
+                                                    "contains_collection": False}
+                bank = r.choice(["EventInfo", "OtherEventInfo"])
+                self.occ.append({"coll": "MyEventInfo", "bank": bank, "type": "xAOD::EventInfo", "uncond": self.uncond})
+                self.shape.append("singleton_md")
+                return f'{evar}.MyEventInfo("{bank}").{r.choice(["runNumber", "eventNumber"])}()', "double"
             self.occ.append({"coll": "EventInfo", "bank": "EventInfo", "type": "xAOD::EventInfo", "uncond": self.uncond})
             self.shape.append("singleton")
             return f'{evar}.EventInfo("EventInfo").{r.choice(["runNumber", "eventNumber"])}()', "double"
@@ -585,7 +594,17 @@ class QGen:
             steps.append(["Select", f"lambda {v}: ({v}[0].Select(lambda {q1}: {x1}), {v}[1].Select(lambda {q2}: {x2}), {v}[1].Count())"])
         if r.random() < 0.2 and steps[-1][0] == "Select" and form.startswith("evt") and not any(s[0] == "Where" for s in steps):
             pass
-        md = [[0, d] for _, d in sorted(self.md.items())]
+        ncols = None
+        if form in ("evt_tuple", "evt_dict") and cols:
+            ncols = len(cols)
+        elif form == "evt_single":
+            ncols = 1
+        if ncols and form != "evt_dict" and r.random() < 0.2:
+            # an explicit result tree with its own file, tree and column names
+            names = [f"{r.choice(['pt', 'n', 'val', 'x'])}_{i}" for i in range(ncols)]
+            steps.append(["AsROOTTTree", [r.choice(["out.root", "ANALYSIS.root"]), r.choice(["mytree", "t1"]), names]])
+            self.shape.append("explicit_tree")
+        md = [[0, d] for _, d in sorted(self.md.items(), key=lambda kv: repr(kv[0]))]
         return {"backend": self.b, "steps": steps, "md": md, "wire": "qastle" if r.random() < 0.2 else "ast",
                 "occurrences": self.occ, "shape": ">".join(self.shape), "cols": cols}
 
